@@ -40,6 +40,12 @@ pub enum DeliveryState { Accepted(Accepted), Other(OtherState) }
 pub uninterp spec fn handle_of(h: OutputHandle) -> Handle;
 #[verifier::external_body]
 pub fn output_to_handle(h: OutputHandle) -> (r: Handle) ensures r == handle_of(h) { unimplemented!() }
+/// the wire handle an INPUT handle (the peer's number for the link) converts to: not the link's own number
+pub uninterp spec fn in_handle_of(h: InputHandle) -> Handle;
+impl vstd::std_specs::convert::FromSpecImpl<OutputHandle> for Handle { open spec fn obeys_from_spec() -> bool { true } open spec fn from_spec(h: OutputHandle) -> Handle { handle_of(h) } }
+impl From<OutputHandle> for Handle { #[verifier::external_body] fn from(h: OutputHandle) -> (r: Handle) { unimplemented!() } }
+impl vstd::std_specs::convert::FromSpecImpl<InputHandle> for Handle { open spec fn obeys_from_spec() -> bool { true } open spec fn from_spec(h: InputHandle) -> Handle { in_handle_of(h) } }
+impl From<InputHandle> for Handle { #[verifier::external_body] fn from(h: InputHandle) -> (r: Handle) { unimplemented!() } }
 #[verifier::external_body]
 pub fn u32_to_be_bytes(x: u32) -> (r: [u8; 4]) { unimplemented!() }
 impl DeliveryTag { #[verifier::external_body] pub fn from(t: [u8; 4]) -> (r: DeliveryTag) { unimplemented!() } }
@@ -95,7 +101,6 @@ pub open spec fn rollback_frame(f: LinkFrame, inner: SenderInner, txn_id: Transa
 //@@ param inner : &mut SenderInner
 //@@ attr #[verifier::loop_isolation(false)]
 //@@ subst `let message = Message::builder().value(discharge).build(); let mut payload = BytesMut::new(); let mut serializer = Serializer::from((&mut payload).writer()); if let Err(_error) = Serializable(message).serialize(&mut serializer) { return; } let payload = payload.freeze();` => `let payload = match encode_discharge(&discharge) { Ok(p) => p, Err(_e) => return };` rule=R9
-//@@ subst `Some(handle) => handle.into(),` => `Some(handle) => output_to_handle(handle),` rule=R16
 //@@ subst `Some(inner) => inner.delivery_count.to_be_bytes(),` => `Some(inner) => u32_to_be_bytes(inner.delivery_count),` rule=R14
 //@@ subst `{ let mut guard = match inner.link.unsettled.try_write() { Some(guard) => guard, None => return, }; guard .get_or_insert(OrderedMap::new()) .insert(delivery_tag, unsettled); }` => `if !inner.link.unsettled.try_insert(delivery_tag, unsettled) { return; }` rule=R15
 //@@ subst `std::thread::sleep(std::time::Duration::from_millis( (10 * counter + 1) as u64, ));` => `sleep_ms((10 * counter + 1) as u64);` rule=R9
@@ -104,7 +109,7 @@ pub open spec fn rollback_frame(f: LinkFrame, inner: SenderInner, txn_id: Transa
     ensures
         final(inner).outgoing.sent@.len() <= old(inner).outgoing.sent@.len() + 1
             && final(inner).outgoing.sent@.take(old(inner).outgoing.sent@.len() as int) =~= old(inner).outgoing.sent@,                                   // [C18.controller.drop-sends-at-most-one-frame]
-        final(inner).outgoing.sent@.len() == old(inner).outgoing.sent@.len() + 1 ==> rollback_frame(final(inner).outgoing.sent@.last(), *old(inner), *txn_id),   // [C18.controller.drop-rolls-back-this-transaction] what a dropped, undischarged transaction puts on the wire is a discharge of ITS OWN id with fail = true, unsettled, on the control link -- never a commit, never another transaction's id
+        final(inner).outgoing.sent@.len() == old(inner).outgoing.sent@.len() + 1 ==> rollback_frame(final(inner).outgoing.sent@.last(), *old(inner), *txn_id),   // [C18.controller.drop-rolls-back-this-transaction] [C11.controller.drop-frame-under-the-links-own-handle] what a dropped, undischarged transaction puts on the wire is a discharge of ITS OWN id with fail = true, unsettled, on the control link -- never a commit, never another transaction's id
         final(inner).link.input_handle == old(inner).link.input_handle && final(inner).link.output_handle == old(inner).link.output_handle,
 //@@ loop 0
         invariant
